@@ -20,7 +20,7 @@ enum { SX_NONE, SX_LOOKUP, SX_SETOPT_TOKEN, SX_SETOPT_TITLE, SX_ADDOPT, SX_ADDVA
 
 typedef struct {
 	/* pre-state */
-	int state, tok, level, skipmode /* force_state == 10 */;
+	int state, tok, level, skipmode /* force_state == 10 */, section_body /* nested activation for the body of a section */;
 	int ctx_comments, ctx_ignore_unknown, ctx_keystrval;
 	int cur_null;                       /* no current option */
 	int cur_is_sec, cur_is_func, cur_list, cur_title, cur_deprecated, cur_drop, cur_validcb, cur_reset_after /* filled */;
@@ -61,10 +61,10 @@ static void spec_step(const sp_in_t *i, sp_out_t *o)
 	if (t == SP_T_ERR) { sp_reject(o, 0); o->diag_by_callee = 1; o->comment_after = 0; return; }   /* the scanner reported it */
 	if (t == SP_T_EOF) {
 		o->comment_after = 0;
-		if (s != 0) { sp_reject(o, 1); return; }                       /* premature end of input */
+		if (s != 0 || i->section_body) { sp_reject(o, 1); return; }     /* premature end of input; a section body must end with its brace */
 		if (!i->cur_null && i->cur_deprecated) { o->deprecated_diag = 1; if (i->cur_drop) sp_act(o, SX_FREEVAL_CUR); }
 		else o->no_diag = 1;
-		o->outcome = SP_RET_EOF;                                        /* pinned for level > 0: see DESIGN 5.C01 "not decided" */
+		o->outcome = SP_RET_EOF;
 		return;
 	}
 	/* comments are transparent in every state (C15) */
